@@ -7,11 +7,13 @@ CONSTANTS
   Shapes <- S_wmL
   Ctl <- C_ping_close
   Closer = TRUE
+  Rd <- R_none
   ControlTakesLock = TRUE
   FlushAtomic = FALSE
   LatchChecked = TRUE
   CloseLatches = TRUE
   TimeoutReleases = FALSE
+  HandlerControlPath = TRUE
   Fifo = TRUE
   OnlyBad = TRUE
   Family = "atk_split"
